@@ -1,9 +1,8 @@
 SPECIFICATION Spec
 CONSTANTS SIntW = 64
           WordW = 64
-          Stride = 97
-          Stride3 = 29
-          Offset = 5
+          Stride = 1
+          Stride3 = 1
+          Offset = 0
           OpFilter = {}
-INVARIANT Typed
 CHECK_DEADLOCK FALSE
